@@ -321,7 +321,9 @@ func (p *pattern) render(i int64) string {
 	return strings.Join(toks, " ")
 }
 
-func isHole(t string) bool { return t == "$E" || t == "$L" || t == "$S" || t == "$T" || t == "$K" || t == "$R" }
+func isHole(t string) bool {
+	return t == "$E" || t == "$L" || t == "$S" || t == "$T" || t == "$K" || t == "$R"
+}
 
 // instantiate builds the depth-1 pattern of a template.
 func instantiate(t template, exprAtoms func(nholes int) []string, tyAtoms []string) pattern {
